@@ -17,7 +17,8 @@ RULE = ("inputs = every concrete Sid from the full product of per-key value sets
         "spelled like a mapped folder or like the Sid-side value of a mapped key) for every configured type, plus every member of every closed vocabulary once at its "
         "position (alias names as plain values included), plus untyped Sids; x every path configuration and the "
         "default; x two import orders (first-touched configuration). distinct = distinct (sid, import order); "
-        "non-trivial = the type has a path template in the configuration.")
+        "non-trivial = the type has a path template in the configuration."
+        " Added: the Sid obtained back from a path (from a Path, from a str, its copy) is asked for its path under every configuration in three spellings and must answer like the string-built Sid.")
 ASSUMPTIONS = ["empty field values are outside the alphabet", "reference rendering = raw path template + inverse value "
                "mapping + defaults (mc/ref/paths.py)"]
 
